@@ -8,7 +8,8 @@ current value (the factory default) is `d`, given the written configuration `v`:
 opaque strings, slices and maps take the written value; structs are decoded field by field, a field
 whose key is not written keeps its default; a nil pointer used as an optional is allocated (zero value)
 when something below it is written.  `encodeV` mirrors `confmap.Conf.Marshal` of the typed result:
-opaque leaves are shown as the redaction marker.  Slices and maps are atoms here.
+opaque leaves are shown as the redaction marker — also as elements of a map or slice of opaque strings.  Other slices
+and maps are atoms here.
 -/
 namespace OtelVerif.C13
 
@@ -25,6 +26,7 @@ inductive EV
   | redacted
   | nil
   | map (kvs : List (String × EV))
+  | list (xs : List EV)
 deriving Repr
 
 mutual
@@ -152,6 +154,8 @@ mutual
 /-- `confmap.Conf.Marshal` of the typed configuration -/
 def encodeV : KS → TV → EV
   | .opaque, .atom _ => .redacted
+  | .map _ .opaque, .atom (.map kvs) => .map (kvs.map (fun p => (p.1, EV.redacted)))   -- headers: every VALUE redacted, keys shown
+  | .slice .opaque, .atom (.list vs) => .list (vs.map (fun _ => EV.redacted))
   | .ptr _, .nilp => .nil
   | .ptr s, t => encodeV s t
   | .struct fs, .struct tfs => .map (encodeF fs tfs)
